@@ -58,7 +58,7 @@ PREF_KIND = {"vp8": "video", "vp8rtx": "video", "h264": "video", "h264rtx": "vid
 
 T_CONNECT = 12.0     # bound for both peers to reach "connected"
 T_CHANNEL = 8.0      # bound for channels to open / carry a message once connected
-T_SETTLE = 0.6      # grace period once every transport of the session has settled
+T_SETTLE = 1.0      # grace period once every transport of the session has settled
 T_CALL = 20.0        # bound for one API call (gathering included)
 T_CLOSE = 10.0
 T_JOB = 150          # seconds, watchdog for one configuration (all rounds + close)
@@ -363,19 +363,36 @@ async def _round(A, B, rd, idx, bg):
     def dead():
         return any(p.pc.connectionState in ("failed", "closed") for p in (off, ans))
 
+    tagged = rec["answer"]["bundle"][0][0] if rec["answer"]["bundle"] and rec["answer"]["bundle"][0] else None
+
     def session_transports(peer):
-        tps = [t.receiver.transport for t in peer.pc.getTransceivers() if t.mid is not None]
+        """(DTLS transports of the sections of the session, the BUNDLE-tagged section's transport)"""
+        tps, prim = [], None
+        for t in peer.pc.getTransceivers():
+            if t.mid is not None:
+                tps.append(t.receiver.transport)
+                if t.mid == tagged:
+                    prim = t.receiver.transport
         if peer.pc.sctp is not None and peer.pc.sctp.mid is not None:
             tps.append(peer.pc.sctp.transport)
-        return tps
+            if peer.pc.sctp.mid == tagged:
+                prim = peer.pc.sctp.transport
+        return tps, prim
+
+    def gone(tp):
+        return _st(tp) in ("closed", "failed", "none") or _ice(tp) in ("closed", "failed", "none")
 
     def settled():
-        """Nothing more can happen to connectionState: a transport of the session is
-        closed/failed, or every transport of the session has completed its handshake."""
-        tps = session_transports(off) + session_transports(ans)
-        if any(_st(tp) in ("closed", "failed", "none") or _ice(tp) in ("closed", "failed", "none") for tp in tps):
-            return True
-        return bool(tps) and all(_st(tp) == "connected" for tp in tps)
+        """Nothing more can happen to connectionState: the transport of the BUNDLE-tagged
+        section is gone on one side, or every transport of the session that still exists has
+        completed its handshake."""
+        alive = []
+        for p in (off, ans):
+            tps, prim = session_transports(p)
+            if tagged is not None and gone(prim):
+                return True
+            alive += [tp for tp in tps if not gone(tp)]
+        return bool(alive) and all(_st(tp) == "connected" for tp in alive)
 
     def both_connected():
         return off.pc.connectionState == "connected" and ans.pc.connectionState == "connected"
@@ -670,8 +687,8 @@ PARAMS = dict(maxa=1, maxb=1, maxadd=0, maxaddans=0, hows='{"track","trx","dc"}'
               follow='{"swap"}', dev="{}", props=PROPS)
 # answerer-side preferences against an offerer without preferences
 PARAMS_B = dict(PARAMS, apa="{}", apv="{}", bpa='{"opus","g711"}', bpv='{"vp8","h264rtx"}')
-WITNESS = dict(maxa=2, maxb=2, maxadd=1, maxaddans=0, hows='{"track","trx","dc"}', dirs='{"sendrecv"}',
-               apa="{}", apv='{"vp8rtx"}', bpa="{}", bpv="{}", pola='{"max-compat"}', polb='{"balanced"}',
+WITNESS = dict(maxa=2, maxb=1, maxadd=0, maxaddans=0, hows='{"track","trx","dc"}', dirs='{"sendrecv"}',
+               apa="{}", apv="{}", bpa="{}", bpv='{"h264b_vp8rtx"}', pola='{"max-compat"}', polb='{"balanced"}',
                taba='{"alt"}', tabb='{"std"}', follow='{"swap"}', dev="{}", props="")
 DEVIATION = dict(maxa=2, maxb=1, maxadd=0, maxaddans=0, hows='{"track","dc"}', dirs='{"sendrecv"}',
                  apa="{}", apv="{}", bpa="{}", bpv="{}", pola='{"max-bundle"}', polb='{"max-compat"}',
